@@ -130,7 +130,7 @@ impl Drop for AsyncWritableFile {
     fn drop(&mut self) {
         let mut content = vec![];
         swap(&mut content, self.content.get_mut());
-        let mut handle = futures::executor::block_on(self.fs.write());
+        let mut handle = async_std::task::block_on(self.fs.write());
         match handle.files.get(&self.destination) {
             Some(file) if file.file_type == VfsFileType::File => {}
             // The file was removed (or replaced by a directory) while this handle was open:
